@@ -16,7 +16,7 @@ VM = {"name": "exec", "quick": 1500, "thorough": 120000}
 
 PROPS = {
     "C09": {
-        "modules": ["C09", "C09Seal"],
+        "modules": ["C09", "C09Seal", "C09Reach"],
         "streams": [{"name": "hostile", "quick": 210, "thorough": 9600}, {"name": "apply", "quick": 75, "thorough": 3200},
                     {"name": "seal", "quick": 180, "thorough": 3200}, {"name": "chain", "quick": 45, "thorough": 2000},
                     {"name": "exec", "quick": 600, "thorough": 60000}, {"name": "feemult", "quick": 100, "thorough": 4500}],
@@ -28,7 +28,8 @@ PROPS = {
     "C10": {
         "modules": ["C10"],
         "streams": [{"name": "exec", "quick": 2500, "thorough": 180000}, {"name": "codec", "quick": 200, "thorough": 6000}],
-        "projection": "all",
+        # results, step counts and weights - not the cost accounting (executed weight, flattened bytes), which is C11's
+        "projection": "exec_semantics",
         # the laws proved in Props/C10.lean about the model ARE the specification: an input on which the real
         # executor and the model disagree is an input on which the property fails
         "model_is_spec": True,
@@ -37,11 +38,12 @@ PROPS = {
                         "catvec ropes are modelled as lists; cases in which a value grows beyond 2^16 elements are discarded by the generator"],
     },
     "C11": {
-        "modules": ["C11"],
+        "modules": ["C11", "C11Cost"],
         "streams": [{"name": "exec", "quick": 2500, "thorough": 180000}, {"name": "weight", "quick": 400, "thorough": 18000}],
         "projection": "all",
         "oracles": ["steps_le_weight"],
-        "assumptions": ["real time and memory are tied to the cost model only through the hook counters (car-weight calls, bytes materialised)"],
+        "assumptions": ["real time and memory are tied to the cost model only through the hook counters: steps of the weigher's passes, bytes flattened out of ropes (compared with the model's `flat` on every executed program), the executed table weight (recomputed by the harness per executed instruction and compared with the model's `xw`), and the counting allocator (fact allocation-bounded-by-weight)",
+                        "the native stack depth needed to drop a nested value is runtime behaviour; the model bounds the nesting depth (C11_depth_le_weight) and shows the bound is reached (C11_depth_witness): finding F17 stays open"],
     },
     "C12": {
         "modules": ["C12"],
@@ -64,7 +66,7 @@ PROPS = {
         "assumptions": ["PoolState arithmetic and PoolKey parsing live in the dependency melstructs: modelled (exact Nat arithmetic for BigRational floor), compared on every seal"],
     },
     "C16": {
-        "modules": ["C16", "C16Hist", "PinC16"],
+        "modules": ["C16", "C16Hist", "C09Reach", "PinC16"],
         "streams": [{"name": "seal", "quick": 180, "thorough": 7200}],
         "projection": "pools",
         "oracles": ["pools"],
@@ -76,7 +78,7 @@ PROPS = {
         "oracles": ["feemult"],
     },
     "C01": {
-        "modules": ["C01", "C01Seal", "C01Whole", "PinC01"],
+        "modules": ["C01", "C01Seal", "C01Whole", "C01Hist", "PinC01"],
         "streams": [{"name": "apply", "quick": 150, "thorough": 6400}, {"name": "seal", "quick": 150, "thorough": 6400}, {"name": "chain", "quick": 60, "thorough": 2400}],
         "projection": "supply",
         "oracles": ["conservation"],
@@ -164,7 +166,7 @@ PROPS = {
         # the property fixes which batches / blocks are accepted: an input on which the implementation accepts what the
         # proved model rejects (or the other way round) is an input on which the property fails
         "verdict_is_spec": True,
-        "modules": ["C18", "PinC18"],
+        "modules": ["C18", "C18Hist", "PinC18"],
         "streams": [{"name": "mint", "quick": 360, "thorough": 12000}, {"name": "apply", "quick": 90, "thorough": 3200}],
         "projection": "speed",
         "oracles": ["mint"],
